@@ -74,3 +74,28 @@ Theorem accesses_are_the_checked_ones :
   gen_reg_store_access = ("ty", "base", "offset")%string /\
   gen_reg_atomic_add_access = ("ty", "base", "offset")%string.
 Proof. repeat split. Qed.
+
+(** ** C09, Cranelift: the eBPF registers the prelude defines.  With the parameters (packet pointer, packet length,
+    metadata pointer, metadata length) that lib.rs passes, r1 is the metadata buffer when it is non-empty and the packet
+    pointer otherwise (lib.rs passes a null packet pointer for an empty packet), r10 is the end of the 512-byte stack slot
+    whose bounds are the stack region of the bounds check; r2 receives the corresponding length; no other register is
+    defined (Cranelift reads an undefined variable as 0). *)
+From Coq Require Import List.
+Import ListNotations.
+Fixpoint reg_lookup (k : Z) (l : list (Z * Z)) : option Z :=
+  match l with [] => None | (k', v) :: r => if k =? k' then Some v else reg_lookup k r end.
+
+Theorem prelude_regs p0 p1 p2 p3 ss sz :
+  0 <= p0 < 2 ^ 64 -> 0 <= p2 < 2 ^ 64 -> 0 <= p3 < 2 ^ 64 -> 0 <= ss -> 0 <= sz -> ss + sz < 2 ^ 64 ->
+  let regs := gen_prelude_regs p0 p1 p2 p3 ss sz in
+  reg_lookup 1 regs = Some (if p3 =? 0 then p0 else p2) /\
+  reg_lookup 10 regs = Some (ss + sz) /\
+  reg_lookup 10 regs = Some (v_stack_end (gen_prelude_vars p0 p1 p2 p3 ss sz)) /\
+  map fst regs = [1; 2; 10].
+Proof.
+  intros H0 H2 H3 Hs Hz Hsz. cbv zeta. unfold gen_prelude_regs, gen_prelude_vars. cbn [reg_lookup Z.eqb Pos.eqb map fst v_stack_end].
+  unfold ir_select, ir_icmp, ir_iconst, ir_iadd. rewrite Z.mod_0_l by (fold_pows; lia).
+  rewrite (Z.mod_small sz) by lia. rewrite (Z.mod_small (ss + sz)) by lia.
+  repeat split.
+  destruct (Z.eqb_spec p3 0); cbn [negb]; reflexivity.
+Qed.
